@@ -1,6 +1,8 @@
 package gen
 
 import (
+	"strings"
+
 	"pgregory.net/rapid"
 
 	"verif/harness/world"
@@ -106,6 +108,9 @@ func C08(t *rapid.T) *world.Scenario {
 	}
 	h := &Hist{}
 	u := "http://a.test/c08"
+	if Pct(t, "latefamily", 12) {
+		return c08Late304(t, sc, u)
+	}
 	withVary := Pct(t, "vary", 50)
 	n := rapid.IntRange(3, 10).Draw(t, "steps")
 	lifeNow := int64(10)
@@ -118,6 +123,11 @@ func C08(t *rapid.T) *world.Scenario {
 		rq := &world.Req{Method: "GET", URL: u}
 		if withVary {
 			rq.Header = append(rq.Header, H("X-A", Pick(t, lbl+"-xa", "1", "1", "2")))
+		}
+		if Pct(t, lbl+"-rnc", 10) {
+			// an end-to-end reload: validated in the foreground even while a background
+			// revalidation of the same entry is in flight
+			rq.Header = append(rq.Header, H("Cache-Control", "no-cache"))
 		}
 		life := Pick(t, lbl+"-life", int64(1), 5, 10, 60)
 		lifeNow = life
@@ -148,6 +158,13 @@ func C08(t *rapid.T) *world.Scenario {
 				ncc = append(ncc, "stale-while-revalidate=60")
 			}
 			r304 := &world.Reply{Kind: "resp", Status: 304, Header: [][2]string{H("Date", "$T+0"), H("Cache-Control", JoinCC(ncc)), H("X-Gen", "g$S")}}
+			if Pct(t, lbl+"-multiline", 25) {
+				// the same directives spread over several field lines, and a multi-line field
+				r304.Header = [][2]string{H("Date", "$T+0"), H("Cache-Control", "public"), H("X-Gen", "g$S"), H("X-Two", "a$S"), H("X-Two", "b$S")}
+				for _, d := range ncc {
+					r304.Header = append(r304.Header, H("Cache-Control", d))
+				}
+			}
 			if Pct(t, lbl+"-newetag", 30) {
 				r304.Header = append(r304.Header, H("Etag", `"v$S"`))
 			}
@@ -177,6 +194,52 @@ func C08(t *rapid.T) *world.Scenario {
 			rq.Bg = &bg
 		}
 		sc.Steps = append(sc.Steps, ReqStep(rq))
+	}
+	return sc
+}
+
+// c08Late304: a background validation is still in flight when the entry is replaced in the
+// foreground; its late 304 is about the old representation.
+func c08Late304(t *rapid.T, sc *world.Scenario, u string) *world.Scenario {
+	val := func(lbl string) [][2]string {
+		switch Weighted(t, lbl, 40, 40, 20) {
+		case 0:
+			return [][2]string{H("Last-Modified", "$T-777")}
+		case 1:
+			return [][2]string{H("Etag", `"v$S"`)}
+		}
+		return [][2]string{H("Etag", `"v$S"`), H("Last-Modified", "$T-777")}
+	}
+	mk := func(lbl string, life int64, swr bool) world.Reply {
+		cc := "max-age=" + itoa(life)
+		if swr {
+			cc += ", stale-while-revalidate=600"
+		}
+		rp := world.Reply{Kind: "resp", Status: 200, Body: world.Body{Len: rapid.IntRange(8, 60).Draw(t, lbl+"-blen")},
+			Header: [][2]string{H("Date", "$T+0"), H("Cache-Control", cc), H("X-Gen", "g$S")}}
+		rp.Header = append(rp.Header, val(lbl+"-val")...)
+		return rp
+	}
+	first := &world.Req{Method: "GET", URL: u, Uncond: mk("r0", 1, true)}
+	sc.Steps = append(sc.Steps, ReqStep(first), SleepStep(Pick(t, "s0", int64(2), 3)))
+	// served stale; the background 304 takes a while
+	stale := &world.Req{Method: "GET", URL: u, Uncond: mk("r1", 1, true)}
+	late := &world.Reply{Kind: "resp", Status: 304, LatencyNs: Pick(t, "lat", int64(2), 3, 4) * Sec,
+		Header: [][2]string{H("Date", "$T+0"), H("Cache-Control", "max-age=5, stale-while-revalidate=600"), H("X-Gen", "g$S"), H("X-Old", "old$S")}}
+	stale.Bg = late
+	stale.Cond = late
+	sc.Steps = append(sc.Steps, ReqStep(stale))
+	if Pct(t, "gap", 50) {
+		sc.Steps = append(sc.Steps, SleepStep(1))
+	}
+	// an end-to-end reload replaces the entry while the 304 is in flight
+	reload := &world.Req{Method: "GET", URL: u, Header: [][2]string{H("Cache-Control", Pick(t, "reload", "no-cache", "max-age=0"))}}
+	repl := mk("r2", 600, Pct(t, "replswr", 30))
+	reload.Uncond, reload.Cond = repl, &repl
+	sc.Steps = append(sc.Steps, ReqStep(reload), SleepStep(Pick(t, "s1", int64(4), 5, 10)))
+	for i := 0; i < rapid.IntRange(1, 2).Draw(t, "after"); i++ {
+		rq := &world.Req{Method: "GET", URL: u, Uncond: mk("r3", 600, false), Cond: Simple304()}
+		sc.Steps = append(sc.Steps, ReqStep(rq), SleepStep(1))
 	}
 	return sc
 }
@@ -335,6 +398,7 @@ func C07(t *rapid.T) *world.Scenario {
 		st := Pick(t, lbl+"-st", 200, 201, 204, 301, 303, 200, 204, 400, 404, 409, 500, 503)
 		rp := world.Reply{Kind: "resp", Status: st, Body: world.Body{Len: 12}, Header: [][2]string{H("Date", "$T+0")}}
 		locs := []string{"", "", "/", "/p/r~1%2Fx?q=1&z=%C3%A9", "p/r~1%2Fx?q=1&z=%C3%A9", "http://a.test/", "http://a.test:80/", "HTTP://A.TEST/p/./r~1%2Fx?q=1&z=%C3%A9",
+			"//a.test/", "//a.test/p/r~1%2Fx?q=1&z=%C3%A9", "//A.TEST:80/", "?q=1&z=%C3%A9", "./", "../",
 			"https://b.test:8443/a/b;p=1/c", "https://B.TEST:8443/a/b;p=1/c", "https://a.test/", "http://a.test:8080/", "//b.test:8443/a/b;p=1/c"}
 		if l := Pick(t, lbl+"-loc", locs...); l != "" {
 			rp.Header = append(rp.Header, H("Location", l))
@@ -390,6 +454,15 @@ func C11(t *rapid.T) *world.Scenario {
 		}
 		if Pct(t, lbl+"-spoof2", 25) {
 			st.Req.Uncond.Header = append(st.Req.Uncond.Header, H("X-Httpcache-Status", Pick(t, lbl+"-sv", "HIT", "STALE", "bogus")))
+		}
+		if Pct(t, lbl+"-qnc", 8) {
+			// a qualified no-cache that names the cache's own fields: those are generated by the
+			// cache for this response, not replayed from the origin, so they stay
+			for hi, kv := range st.Req.Uncond.Header {
+				if kv[0] == "Cache-Control" && !strings.Contains(kv[1], "no-cache") {
+					st.Req.Uncond.Header[hi] = H("Cache-Control", kv[1]+Pick(t, lbl+"-qncv", `, no-cache="Age"`, `, no-cache="X-Httpcache-Status, X-From-Cache"`, `, no-cache="age, x-other"`))
+				}
+			}
 		}
 		if Pct(t, lbl+"-age", 25) && !hasHeader(st.Req.Uncond.Header, "Age") {
 			st.Req.Uncond.Header = append(st.Req.Uncond.Header, H("Age", itoa(Seconds(t, lbl+"-agev"))))
